@@ -291,6 +291,20 @@ func vRecipients(st *vStep, pre *vPre) {
 				closing = verifOr(sx.deleted, !vLive(i, sx))
 			}
 			vA(st, verifImplies(got, verifOr(isActor, named, viaChan, viaSubject, wide, closing)), "recipient-is-entitled")
+			// completeness: NICK and QUIT reach every other client that shared a channel with the subject
+			if !fromServer && (m.Command == irc.NICK || m.Command == irc.QUIT) {
+				for y := range all {
+					// the subject is identified by its whole pre-state prefix (the host part carries the session id),
+					// not by the name alone: a link's server name may coincide with somebody's nickname
+					py := pre.sess[y].prefix
+					isSubj := verifAnd(pre.sess[y].nick != "", py.Name == pre.sess[y].nick, m.Prefix.Name == py.Name, m.Prefix.User == py.User, m.Prefix.Host == py.Host)
+					share := false
+					for c := range t.chans {
+						share = verifOr(share, verifAnd(t.member[c][y], t.member[c][x]))
+					}
+					vA(st, verifImplies(verifAnd(isSubj, share, all[y] != sx, vLive(i, sx), !sx.deleted), got), "nick-and-quit-reach-everybody-sharing-a-channel")
+				}
+			}
 			// completeness: a channel message reaches every other member
 			if !fromServer && (m.Command == irc.PRIVMSG || m.Command == irc.NOTICE) && len(m.Params) > 0 && st.role != vRoleServices {
 				for c, ch := range t.chans {
@@ -414,6 +428,9 @@ func vEnded(st *vStep, pre *vPre) {
 			owns = verifOr(owns, verifAnd(verifSlotPresent(i.nicks, j), verifSlotVal(i.nicks, j).(*Session) == s))
 		}
 		vA(st, verifImplies(gone, !owns), "ended-session-owns-no-nickname")
+		// a session that was ended during the entry is out of the table when the entry is done
+		// (a leftover would be revived with its nickname by the next snapshot round trip)
+		vA(st, verifImplies(s.deleted, gone), "ended-session-is-removed-from-the-table")
 	}
 	// a session that ended (or is marked deleted) has left every channel
 	for x, s := range t.all() {
